@@ -14,7 +14,7 @@ ASAN  := $(COMMON) -O1 -fsanitize=address -fno-omit-frame-pointer -DSIM_BUILD_NA
 TLS   := $(COMMON) -O1 -DRLBOX_EMBEDDER_PROVIDES_TLS_STATIC_VARIABLES -DSIM_BUILD_NAME='"tls"'
 LIBS := -lpthread -ldl
 
-TARGETS := apptoken mem callback callback.tls invoke toctou toctou.asan bulk bulk.asan transition.hooks transition.timing transition.both threads threads.tsan
+TARGETS := apptoken mem mem.p64 callback callback.tls invoke toctou toctou.asan bulk bulk.asan transition.hooks transition.timing transition.both threads threads.tsan
 
 all: $(addprefix $(B)/,$(TARGETS))
 
@@ -58,6 +58,9 @@ $(B)/threads: worlds/threads.cpp $(B)/sched.o $(HDRS) $(SIMH) | $(B)
 	$(CXX) $(PLAIN) $< $(B)/sched.o -o $@ $(LIBS)
 $(B)/threads.tsan: worlds/threads.cpp $(B)/sched.clang.o $(HDRS) $(SIMH) | $(B)
 	$(CLANGXX) $(COMMON) -O1 -fsanitize=thread -DSIM_BUILD_NAME='"tsan"' $< $(B)/sched.clang.o -o $@ $(LIBS)
+
+$(B)/mem.p64: worlds/mem.cpp $(HDRS) $(SIMH) | $(B)
+	$(CXX) $(PLAIN) -DSIM_PTR_T=uint64_t -DSIM_BUILD_NAME='"p64"' $< -o $@ $(LIBS)
 
 $(B)/%: worlds/%.cpp $(HDRS) $(SIMH) | $(B)
 	$(CXX) $(PLAIN) $< -o $@ $(LIBS)
